@@ -241,6 +241,14 @@ Definition rd_custom : rd custom_build :=
   rd_bind rd_opt (fun gd => rd_bind (rd_list rd_s) (fun cmd => rd_bind (rd_optlist rd_s) (fun out =>
   rd_ret {| cb_gcc_deps := gd; cb_cmd := cmd; cb_out := out |}))).
 
+(* download: "-" | "+" ("C" url commit | "U") <optlist patches> <opt dldir> *)
+Definition rd_download : rd download :=
+  rd_bind rd_raw (fun k =>
+  rd_bind (if str_eqb k (S_ "C") then rd_bind rd_s (fun u => rd_bind rd_s (fun c => rd_ret (DlGitCommit u c)))
+           else rd_ret DlUnsupported) (fun src =>
+  rd_bind (rd_optlist rd_s) (fun patches => rd_bind rd_opt (fun dldir =>
+  rd_ret {| dl_source_of := src; dl_patches := patches; dl_dldir := dldir |})))).
+
 Definition rd_ymod : rd ymod :=
   rd_bind rd_opt (fun name => rd_bind rd_ctxspec (fun ctx =>
   rd_bind (rd_optlist rd_depspec) (fun depends => rd_bind (rd_optlist rd_depspec) (fun selects =>
@@ -251,11 +259,13 @@ Definition rd_ymod : rd ymod :=
   rd_bind (rd_optP rd_env) (fun el => rd_bind (rd_optP rd_env) (fun ee => rd_bind (rd_optP rd_env) (fun eg =>
   rd_bind (rd_optlist rd_s) (fun bl => rd_bind (rd_optlist rd_s) (fun al =>
   rd_bind rd_opt (fun srcdir => rd_bind rd_bool (fun ibd => rd_bind rd_bool (fun igbd =>
+  rd_bind (rd_optP rd_download) (fun dl =>
   rd_ret {| ym_name := name; ym_context := ctx; ym_depends := depends; ym_selects := selects; ym_uses := uses;
             ym_provides := prov; ym_provides_unique := pu; ym_conflicts := confl; ym_notify_all := na;
             ym_sources := sources; ym_tasks := tasks; ym_build := build; ym_env_local := el;
             ym_env_export := ee; ym_env_global := eg; ym_blocklist := bl; ym_allowlist := al;
-            ym_srcdir := srcdir; ym_is_build_dep := ibd; ym_is_global_build_dep := igbd |})))))))))))))))))))).
+            ym_srcdir := srcdir; ym_is_build_dep := ibd; ym_is_global_build_dep := igbd;
+            ym_download := dl |}))))))))))))))))))))).
 
 (* modules:/apps: key:  "-" absent, "0" present but null, "+" list *)
 Definition rd_modlist : rd (option (option (list ymod))) := fun ts =>
@@ -336,7 +346,7 @@ Definition show_gen (g : gen_result) : str :=
 
 (* the count: partitioner of task_partitioner: the k-th (1-based) of n takes items i with i mod n = k-1 *)
 Definition run_gen (EVt : str -> evr) (t : ytree) (c : cli) : res gen_result :=
-  rbind (load t (S_ "laze-project.yml")) (fun b =>
+  rbind (load t (S_ "laze-project.yml") (le_build_dir (cl_le c))) (fun b =>
   rbind (cli_selects c) (fun sel =>
   rbind (cli_env c) (fun cenv =>
   generate siphash13 EVt b (cl_le c) (cl_builders c) (cl_apps c) (cl_local c)
@@ -387,7 +397,7 @@ Definition find_binary (b : bag) (builder : nat) (app : str) : option module :=
                  | None => false end) (binaries b).
 
 Definition check_modules (t : ytree) (c : cli) (builder app : str) (names : list str) : res (bool * bool * bool) :=
-  rbind (load t (S_ "laze-project.yml")) (fun b =>
+  rbind (load t (S_ "laze-project.yml") (le_build_dir (cl_le c))) (fun b =>
   rbind (cli_selects c) (fun sel =>
   match bag_index b builder with
   | None => Err (EOther (S_ "nobuilder"))
@@ -445,7 +455,7 @@ Definition handle_imports (cmd : str) (ts : list str) : option str :=
                rd_ret (t, c, bn, app)))))) ts
               (fun '(t, c, bn, app) =>
                  show_res (fun x => x)
-                   (rbind (load t (S_ "laze-project.yml")) (fun b =>
+                   (rbind (load t (S_ "laze-project.yml") (le_build_dir (cl_le c))) (fun b =>
                     rbind (cli_selects c) (fun sel =>
                     match bag_index b bn with
                     | None => Err (EOther (S_ "nobuilder"))
@@ -560,15 +570,15 @@ Definition main_outcome (a : cargs) (m : main_req) (g : gen_result) : str :=
   show_dec (N.of_nat (o_exit o)) ++ S_ " " ++ show_dec (N.of_nat (length (o_actions o))) ++ flat_map show_action (o_actions o).
 
 (* one line per history: for every op  "| <H|G|F|K|E> <ninja A|P|C<hash>> <cache 0|1> [exit nactions actions] [X <file>]" *)
-Fixpoint run_hist (EVt : str -> evr) (st : str -> N -> list ydoc) (w : world vtree cargs tstate gen_result)
+Fixpoint run_hist (EVt : str -> evr) (bd : str) (st : str -> N -> list ydoc) (w : world vtree cargs tstate gen_result)
          (ops : list hop) : res str :=
   match ops with
   | [] => Ok []
   | HEdit t :: rest =>
       rmap (fun s => S_ " | E" ++ s)
-           (run_hist EVt st (cstep siphash13 EVt st w (Edit t)) rest)
+           (run_hist EVt bd st (cstep siphash13 EVt bd st w (Edit t)) rest)
   | HRun a k m :: rest =>
-      let '(w', o) := crun siphash13 EVt st a k w in
+      let '(w', o) := crun siphash13 EVt bd st a k w in
       let sl := get_slot _ _ _ _ w' (cis_local a) in
       let state := S_ " " ++ show_nfile (s_ninja _ _ _ sl) ++
                    (match s_cache _ _ _ sl with Some _ => S_ " 1" | None => S_ " 0" end) in
@@ -576,29 +586,29 @@ Fixpoint run_hist (EVt : str -> evr) (st : str -> N -> list ydoc) (w : world vtr
       | OFail (FErr (ENeedEv e)) => Err (ENeedEv e)
       | OFail (FPanic n) => Panic n
       | OFail FFuel => Fuel
-      | OFail (FErr _) => rmap (fun s => S_ " | F" ++ state ++ s) (run_hist EVt st w' rest)
+      | OFail (FErr _) => rmap (fun s => S_ " | F" ++ state ++ s) (run_hist EVt bd st w' rest)
       | OKilled => rmap (fun s => S_ " | K" ++ state ++
                                   (match s_ninja _ _ _ sl with NComplete g => S_ " X " ++ hex (gr_file g) | _ => [] end) ++ s)
-                        (run_hist EVt st w' rest)
-      | OHit g => rmap (fun s => S_ " | H" ++ state ++ S_ " " ++ main_outcome a m g ++ s) (run_hist EVt st w' rest)
+                        (run_hist EVt bd st w' rest)
+      | OHit g => rmap (fun s => S_ " | H" ++ state ++ S_ " " ++ main_outcome a m g ++ s) (run_hist EVt bd st w' rest)
       | ORegen g => rmap (fun s => S_ " | G" ++ state ++ S_ " " ++ main_outcome a m g ++ S_ " X " ++ hex (gr_file g) ++ s)
-                         (run_hist EVt st w' rest)
+                         (run_hist EVt bd st w' rest)
       end
   end.
 
 Definition handle_hist (cmd : str) (ts : list str) : option str :=
   if str_eqb cmd (S_ "hist") then
-    Some (run (rd_bind rd_store (fun st => rd_bind rd_vtree (fun t0 => rd_bind (rd_list rd_hop) (fun ops =>
-               rd_bind rd_evtable (fun ev => rd_ret (st, t0, ops, ev)))))) ts
-              (fun '(st, t0, ops, ev) =>
+    Some (run (rd_bind rd_s (fun bd => rd_bind rd_store (fun st => rd_bind rd_vtree (fun t0 => rd_bind (rd_list rd_hop) (fun ops =>
+               rd_bind rd_evtable (fun ev => rd_ret (bd, st, t0, ops, ev))))))) ts
+              (fun '(bd, st, t0, ops, ev) =>
                  (* side condition of C08_hit_is_fresh, evaluated for every tree of the history:
                     the loaded contexts have distinct names *)
                  let trees := t0 :: flat_map (fun o => match o with HEdit t => [t] | _ => [] end) ops in
-                 let names_ok := forallb (fun t => match load (ytree_of (store_of st) t) project_file with
+                 let names_ok := forallb (fun t => match load (ytree_of (store_of st) t) project_file bd with
                                                    | Ok b => list_eqb str_eqb (nodup_str (bag_names b)) (bag_names b)
                                                    | _ => true end) trees in
                  show_res (fun s => S_ "ok" ++ (if names_ok then S_ " D1" else S_ " D0") ++ s)
-                          (run_hist ev (store_of st) (fresh _ _ _ _ t0) ops)))
+                          (run_hist ev bd (store_of st) (fresh _ _ _ _ t0) ops)))
   else None.
 
 Definition handle6 (line : str) : str :=
